@@ -5,6 +5,7 @@ From Coq Require Import List ZArith NArith QArith Qcanon String Bool.
 From Qryn Require Import model.Sql model.Logql model.LogqlPlan model.LogqlMetricSem proofs.LogqlMetricProofs.
 From Qryn Require Import model.LogqlMetricPost proofs.LogqlMetricPostProofs.
 From Qryn Require Import model.SqlEval model.LogqlSem model.LogqlMetricE2E proofs.LogqlMetricE2EProofs.
+From Qryn Require Import model.LogqlMetricFloat proofs.LogqlMetricFloatProofs.
 Import ListNotations.
 Open Scope Z_scope.
 
@@ -117,6 +118,21 @@ Theorem topk_correct :
   end.
 Proof. exact LogqlMetricProofs.topk_correct. Qed.
 Print Assumptions topk_correct.
+
+(* the same for topk / bottomk over a script answered from the roll-up table (the plan always exists there) *)
+Theorem topk_correct_shortcut :
+  forall (fp : lmap -> N) (to_float : string -> Qc) (quantile_o : string -> list Qc -> Qc) (varpop stddevpop : list Qc -> Qc),
+  (forall a b, fp a = fp b -> a = b) ->
+  forall c base t fin p,
+  analyze_m15 (STopK t) = true -> plan_metric (STopK t) fin = Some p ->
+  0 < c_step_ns c -> consistent base -> nonneg base ->
+  exists out inner kept,
+    sem fp to_float quantile_o varpop stddevpop p c base = Some out /\
+    inner_ref to_float quantile_o varpop stddevpop (tk_inner t) (map entry_of base) = Some (map strip inner) /\
+    topk_spec (tk_len t) (tk_top t) inner kept /\
+    map strip out = ref_step (c_step_ns c) (get_duration (STopK t)) (ref_cmp (tk_cmp t) (map strip kept)).
+Proof. exact topk_shortcut_correct. Qed.
+Print Assumptions topk_correct_shortcut.
 
 (* ... and those first k rows are a top-k (bottom-k) set: k of them or all, rows of the group, and no row left out has a
    larger (smaller) value than a row kept *)
@@ -299,3 +315,57 @@ Theorem logql_metric_correct_from_stored_data_refuted :
     <> metric_ref_db re_match parse_float json_get hash_labels to_float quantile_o varpop stddevpop dk_script dk_ctx dk_db.
 Proof. exact metric_drop_refuted. Qed.
 Print Assumptions logql_metric_correct_from_stored_data_refuted.
+
+(* ---------- float64: which value expressions are exact (model/LogqlMetricFloat.v says what is approximate) ---------- *)
+(* IEEE model: every operation returns rnd(exact result); the one fact used about rnd: integers of magnitude <= 2^53 are
+   representable. sum(...) over integer-valued samples whose absolute values add up to at most 2^53 is exact in EVERY
+   summation order and association (a tree t over a permutation of the values) *)
+Theorem float64_sum_exact : forall (rnd : Qc -> Qc), (forall z, int53 z -> rnd (qz z) = qz z) ->
+  forall t zs vals, Permutation.Permutation (leaves t) vals -> vals = map qz zs -> abs_sum zs <= 2 ^ 53 ->
+  fl_sum rnd t = qsum vals.
+Proof. exact fl_sum_exact. Qed.
+Print Assumptions float64_sum_exact.
+
+(* count_over_time / bytes_over_time: toFloat64 of an integer below 2^53 is the integer *)
+Theorem float64_count_bytes_exact : forall (rnd : Qc -> Qc), (forall z, int53 z -> rnd (qz z) = qz z) ->
+  forall v (g : list mrow),
+  match v with
+  | LVCount => Z.of_nat (List.length g) <= 2 ^ 53
+  | LVBytes => zsum (map (fun r => Z.of_nat (String.length (r_line r))) g) <= 2 ^ 53
+  | _ => False
+  end -> fl_eval_lra rnd v g = eval_lra v g.
+Proof. exact fl_lra_exact. Qed.
+Print Assumptions float64_count_bytes_exact.
+
+(* rate / bytes_rate over a range of whole seconds: ONE rounding of the reference's rational (correctly rounded) *)
+Theorem float64_rate_one_rounding : forall (rnd : Qc -> Qc), (forall z, int53 z -> rnd (qz z) = qz z) ->
+  forall v (g : list mrow) k, 0 < k <= 2 ^ 53 ->
+  match v with
+  | LVCountDiv d => d = k * 1000000000 /\ Z.of_nat (List.length g) <= 2 ^ 53
+  | LVBytesDiv d => d = k * 1000000000 /\ zsum (map (fun r => Z.of_nat (String.length (r_line r))) g) <= 2 ^ 53
+  | _ => False
+  end -> fl_eval_lra rnd v g = rnd (eval_lra v g).
+Proof. exact fl_lra_rate_one_rounding. Qed.
+Print Assumptions float64_rate_one_rounding.
+
+Theorem float64_unwrapped_rate_one_rounding : forall (rnd : Qc -> Qc), (forall z, int53 z -> rnd (qz z) = qz z) ->
+  forall t zs vals d k,
+  Permutation.Permutation (leaves t) vals -> vals = map qz zs -> abs_sum zs <= 2 ^ 53 -> 0 < k <= 2 ^ 53 -> d = k * 1000000000 ->
+  fl_eval_uw_rate rnd d t = rnd (Qcdiv (qsum vals) (secs_exact d)).
+Proof. exact fl_uw_rate_one_rounding. Qed.
+Print Assumptions float64_unwrapped_rate_one_rounding.
+
+Theorem float64_avg_one_rounding : forall (rnd : Qc -> Qc), (forall z, int53 z -> rnd (qz z) = qz z) ->
+  forall t zs vals,
+  Permutation.Permutation (leaves t) vals -> vals = map qz zs -> abs_sum zs <= 2 ^ 53 -> Z.of_nat (List.length vals) <= 2 ^ 53 ->
+  fl_eval_avg rnd t = rnd (qavg vals).
+Proof. exact fl_avg_one_rounding. Qed.
+Print Assumptions float64_avg_one_rounding.
+
+(* min / max / first / last (argMin / argMax) return one of their inputs: no arithmetic, exact for every input *)
+Theorem float64_selections_exact :
+  (forall l, l <> [] -> List.In (qmin_l l) l) /\ (forall l, l <> [] -> List.In (qmax_l l) l) /\
+  (forall (A : Type) (ts : A -> Z) (l : list A) x, argmin_ts ts l = Some x -> List.In x l) /\
+  (forall (A : Type) (ts : A -> Z) (l : list A) x, argmax_ts ts l = Some x -> List.In x l).
+Proof. split; [exact qmin_l_selects|]. split; [exact qmax_l_selects|]. split; [exact @argmin_selects|exact @argmax_selects]. Qed.
+Print Assumptions float64_selections_exact.
